@@ -2023,6 +2023,21 @@ def _r3_consumer(ctx, rid, carries_idx):
                                           f"resolved with: the edge map and the edge list disagree afterwards", label="update_var: edge map key")
 
 
+def edge_records_carry_their_index(ctx, rid):
+    """Exported (also registered by C07): the update records adapt_circuit builds - every edge record is resolved with the
+    (source, target, idx) of one parameter-map entry and, whenever that index can be non-zero, forwards the same index as its fourth
+    element; update_var resolves and re-registers the edge with the record's own index."""
+    ac = _func(ctx, "adapt_circuit")
+    sink = _Sink()
+    carries = False
+    for V in variants(ctx, ac):
+        case = _AdaptCase(ctx, rid, V, sink)
+        case.run()
+        carries = carries or case.carries_idx
+    sink.flush(ctx, rid, ac)
+    _r3_consumer(ctx, rid, carries)
+
+
 def r3_values_reach_targets(ctx, rid):
     gs = _func(ctx, "grid_search")
     ac = _func(ctx, "adapt_circuit")
@@ -3017,7 +3032,7 @@ def r9_skip_compares_with_effective_value(ctx, rid):
             if not over and not other:
                 continue
             n += 1
-            label = f"skip decision `{norm(c, 60)}` compares with the effective value"
+            label = f"skip decision {n} in adapt_circuit compares with the effective value"
             if H is V:
                 set_parents(tree)
             if other and not over:
